@@ -14,7 +14,7 @@ Next == /\ depth < MaxDepth /\ depth' = depth + 1
            \/ \E i \in created, a \in MCAttrs : Do(i, "read", a, 0) \/ (a \in Mutable /\ Do(i, "mutate", a, 0))
                                                  \/ Do(i, "delete", a, 0)
                                                  \/ (a \in {"c_int", "m_dyn"} /\ \E v \in {3, 9} : Do(i, "assign", a, v))
-           \/ \E i \in created : Do(i, "register", "c_int", 0) \/ Do(i, "add_trait", "c_int", 0) \/ Do(i, "mutate_extra", "c_int", 0)
+           \/ \E i \in created : Do(i, "query", "c_int", 0) \/ Do(i, "register", "c_int", 0) \/ Do(i, "add_trait", "c_int", 0) \/ Do(i, "mutate_extra", "c_int", 0)
 Spec == Init /\ [][Next]_vars
 \* ---- C10 as TLC decides it
 \* non-interference: only the actor's view changes; an instance not yet created is pristine
@@ -24,5 +24,9 @@ Pristine == \A j \in (1..NInst) \ created : insts[j] = NewInst
 DefaultOnce == \A i \in 1..NInst, a \in Dynamic \cap MCAttrs : insts[i].runs[a] <= 1 + depth     \* (deletions re-arm it)
 \* a value that was never assigned or mutated reads as the declared default of the instance's own class
 DeclaredDefault == \A i \in created, a \in MCAttrs :
-   LET r == Read(insts[i], a, Sub(i)) IN insts[i].vals[a].set = 0 => r.ret = Default(a, Sub(i)) /\ r.st.calls = insts[i].calls
+   LET r == Read(insts[i], a, Sub(i)) IN insts[i].vals[a].set = 0 =>
+       /\ r.st.calls = insts[i].calls
+       /\ r.st.vals[a] = Val(a, Default(a, Sub(i)))                       \* what is stored
+       /\ \/ r.ret = Default(a, Sub(i))
+          \/ a \in FaultOnFirstRead /\ r.ret = FaultRet /\ Read(r.st, a, Sub(i)).ret = Default(a, Sub(i))   \* the fault does not undo it
 =============================================================================
